@@ -17,7 +17,7 @@
 #include <deque>
 #include <functional>
 using namespace tbb::flow; using tbb::detail::d2::graph_task; using tbb::detail::d2::SUCCESSFULLY_ENQUEUED;
-static int DEPTH = 6;
+static int DEPTH = 6; static std::vector<int> PREFILLS = {0, 3, 4, 7, 8};   // start states of the operation-sequence leg: items already buffered (capacity boundaries 4 and 8)
 static void pump() { vtbb::interleave(); }                       // pending graph tasks may run now (explorer choice)
 static std::string S(const std::vector<int>& v) { std::string s; for (int x : v) { s += std::to_string(x); s += ','; } return s; }
 
@@ -29,7 +29,7 @@ static const int TAGS[] = {2, 0, 1, 1, 4, 3, 0, 6, 5, 2, 7, 8};          // tags
 struct Model { int kind; std::deque<int> q; std::multiset<int> ms; std::set<int> tags; int head = 0; bool holding = false; int held = 0; std::multiset<int> in, out;
     bool empty() const { return kind == 1 ? q.empty() : kind == 3 ? !tags.count(head) : ms.empty(); } };
 static long seq_count(int depth) { long n = 1; for (int i = 0; i < depth; i++) n *= NOPS; return n; }
-static void s_seq(long c) { int kind = (int)(c % 4); c /= 4; int ops[16]; for (int i = 0; i < DEPTH; i++) { ops[i] = (int)(c % NOPS); c /= NOPS; }
+static void s_seq(long c) { int kind = (int)(c % 4); c /= 4; int prefill = PREFILLS[c % PREFILLS.size()]; c /= (long)PREFILLS.size(); int ops[16]; for (int i = 0; i < DEPTH; i++) { ops[i] = (int)(c % NOPS); c /= NOPS; }
     // legality: release/consume only while holding, reserve only while not holding; prune illegal sequences (cheap: before creating the graph)
     { bool h = false; int items = 0, na = 0; for (int i = 0; i < DEPTH; i++) { int o = ops[i]; if (o == OP_A && ++na > 1) return; if ((o == OP_L || o == OP_C) && !h) return; if (o == OP_R && h) return; if (o == OP_R) h = true; if (o == OP_L || o == OP_C) h = false; (void)items; } }
     static const char* KN[] = {"buffer", "queue", "priority_queue", "sequencer"}; vtbb::init(2); Model m; m.kind = kind; int nput = 0; std::string trace;
@@ -45,8 +45,9 @@ static void s_seq(long c) { int kind = (int)(c % 4); c /= 4; int ops[16]; for (i
           else { if (!m.ms.count(v)) vf_fail("%s_node %s returned %d which is not in the buffer [%s]", KN[kind], what, v, trace.c_str()); if (kind == 2 && v != *m.ms.rbegin()) vf_fail("priority_queue_node %s returned %d but %d with higher priority is buffered [%s]", what, v, *m.ms.rbegin(), trace.c_str()); } };
       auto remove = [&](int v) { if (kind == 1) m.q.pop_front(); else if (kind == 3) { m.tags.erase(m.head); m.head++; } else m.ms.erase(m.ms.find(v)); m.out.insert(v); };
       FwdRecv recv(g); recv.on = [&](int v) { trace += 'f'; if (m.holding && v == m.held) vf_fail("%s_node forwarded item %d to a successor while it is reserved by another consumer (it can now be consumed twice) [%s]", KN[kind], v, trace.c_str()); expect_next(v, "forward to a successor"); remove(v); };
-      for (int i = 0; i < DEPTH; i++) { int o = ops[i]; trace += "PGRLCA"[o];
-          if (o == OP_A) { if (kind == 0) make_edge(bn, recv); else if (kind == 1) make_edge(qn, recv); else if (kind == 2) make_edge(pn, recv); else make_edge(sn, recv); pump(); continue; }
+      bool attached = false; std::vector<int> seq; for (int i = 0; i < prefill; i++) seq.push_back(OP_P); for (int i = 0; i < DEPTH; i++) seq.push_back(ops[i]);
+      for (size_t i = 0; i < seq.size(); i++) { int o = seq[i]; trace += "PGRLCA"[o]; if ((int)i + 1 == prefill) trace += ':';
+          if (o == OP_A) { attached = true; if (kind == 0) make_edge(bn, recv); else if (kind == 1) make_edge(qn, recv); else if (kind == 2) make_edge(pn, recv); else make_edge(sn, recv); pump(); continue; }
           if (o == OP_P) { int v = kind == 2 ? PRIO[nput % 12] : kind == 3 ? 100 * (nput + 1) + TAGS[nput % 12] : nput + 1; nput++; bool ok = put(v);
               if (kind == 3) { int tag = v % 100; bool should = tag >= m.head && !m.tags.count(tag); if (ok != should) vf_fail("sequencer_node try_put of tag %d returned %d (next tag to emit %d, tag %s buffered) [%s]", tag, ok, m.head, m.tags.count(tag) ? "already" : "not", trace.c_str()); if (ok) { m.tags.insert(tag); m.in.insert(v); } }
               else { if (!ok) vf_fail("%s_node rejected a put [%s]", KN[kind], trace.c_str()); m.in.insert(v); if (kind == 1) m.q.push_back(v); else m.ms.insert(v); } }
@@ -59,6 +60,7 @@ static void s_seq(long c) { int kind = (int)(c % 4); c /= 4; int ops[16]; for (i
           pump(); }
       if (m.holding) { release(); m.holding = false; }
       g.wait_for_all();
+      if (attached && !m.empty()) vf_fail("%s_node: deliverable items stayed in the buffer after wait_for_all although an accepting successor is connected and nothing is reserved (a kept message must be offered again) [%s]", KN[kind], trace.c_str());
       for (;;) { int v = -1; if (!get(v)) break; expect_next(v, "try_get (final drain)"); remove(v); }
       if (kind != 3) { if (m.in != m.out) vf_fail("%s_node: %zu items were put but %zu came out (lost or duplicated) [%s]", KN[kind], m.in.size(), m.out.size(), trace.c_str()); }
       else { if (!m.empty()) vf_fail("sequencer_node holds the next tag %d but try_get failed [%s]", m.head, trace.c_str()); } }
@@ -166,11 +168,11 @@ static void s_route(long c) { int kind = (int)(c % 3); c /= 3; int k = 1 + (int)
 }
 
 struct Block { const char* name; long count; void (*fn)(long); };
-static std::vector<Block> blocks; static const char* only = nullptr;
+static std::vector<Block> blocks; static const char* only = nullptr; static const char* skip = nullptr;
 static void scenario(long c) { for (auto& b : blocks) { if (c < b.count) { b.fn(c); return; } c -= b.count; } }
 int main(int argc, char** argv) {
-    for (int i = 1; i + 1 < argc; i++) if (!strcmp(argv[i], "-p")) { if (!strncmp(argv[i + 1], "only=", 5)) only = argv[i + 1] + 5; if (!strncmp(argv[i + 1], "depth=", 6)) DEPTH = atoi(argv[i + 1] + 6); }
-    Block all[] = {{"seq", 4 * seq_count(DEPTH), s_seq}, {"seqr", 3 * 2 * 3 * 24, s_seqr}, {"join", 3 * 3 * 3 * 2 * 3 * 64, s_join}, {"limiter", 2 * 3 * 243, s_limiter}, {"ow", 2 * 81, s_ow}, {"route", 3 * 3 * 2, s_route}};
-    for (auto& b : all) if (!only || !strcmp(only, b.name)) blocks.push_back(b);
+    for (int i = 1; i + 1 < argc; i++) if (!strcmp(argv[i], "-p")) { if (!strncmp(argv[i + 1], "only=", 5)) only = argv[i + 1] + 5; if (!strncmp(argv[i + 1], "skip=", 5)) skip = argv[i + 1] + 5; if (!strncmp(argv[i + 1], "depth=", 6)) DEPTH = atoi(argv[i + 1] + 6); if (!strncmp(argv[i + 1], "prefills=", 9)) { PREFILLS.clear(); for (const char* q = argv[i + 1] + 9; *q;) { PREFILLS.push_back((int)strtol(q, (char**)&q, 10)); if (*q == '.') q++; } } }
+    Block all[] = {{"seq", 4 * (long)PREFILLS.size() * seq_count(DEPTH), s_seq}, {"seqr", 3 * 2 * 3 * 24, s_seqr}, {"join", 3 * 3 * 3 * 2 * 3 * 64, s_join}, {"limiter", 2 * 3 * 243, s_limiter}, {"ow", 2 * 81, s_ow}, {"route", 3 * 3 * 2, s_route}};
+    for (auto& b : all) if ((!only || !strcmp(only, b.name)) && (!skip || strcmp(skip, b.name))) blocks.push_back(b);
     long n = 0; for (auto& b : blocks) n += b.count; return vf_main_cases(argc, argv, n, scenario);
 }
